@@ -47,6 +47,33 @@ func (s *State) withEnv(env map[ssa.Value]Value) *State {
 	return &State{pc: s.pc, env: env, heap: s.heap, defers: nil, derived: s.derived}
 }
 
+// assumeStated: an assumption a contract states (vAssume, a precondition, an assumed postcondition, an invariant).
+// Where every conjunct of the path condition is itself such an assumption stated unconditionally, the new one holds
+// on every path from here on and may teach the simplifier bounds (learnBounds).
+func (e *Engine) assumeStated(st *State, t *smt.Term) {
+	top := true
+	for _, p := range st.pc {
+		if !e.topLits[p.ID] {
+			top = false
+			break
+		}
+	}
+	if top {
+		e.markTop(t)
+	}
+	e.assume(st, t)
+}
+
+func (e *Engine) markTop(t *smt.Term) {
+	if t.Op == smt.OAnd {
+		for _, a := range t.Args {
+			e.markTop(a)
+		}
+		return
+	}
+	e.topLits[t.ID] = true
+}
+
 func (e *Engine) assume(st *State, t *smt.Term) {
 	if t.IsTrue() {
 		return
@@ -71,6 +98,13 @@ func (e *Engine) assume(st *State, t *smt.Term) {
 func (e *Engine) learnBounds(st *State, t *smt.Term) {
 	if t.Op != smt.OSle && t.Op != smt.OSlt {
 		return
+	}
+	// The simplifier uses what is learnt here wherever the variable occurs (terms are shared between paths), so it
+	// must hold on every path: only assumptions stated where no branch condition is in force may teach it.
+	for _, p := range st.pc {
+		if !e.topLits[p.ID] {
+			return
+		}
 	}
 	for _, v := range []*smt.Term{t.Args[0], t.Args[1]} {
 		if v.Op != smt.OVar || v.Sort.Width != 64 || e.smallSet[v.ID] {
